@@ -137,12 +137,14 @@ func (s *segment) setupIndex() (err error) {
 	// If the process died between the log write and the index write, the log
 	// holds data the index does not cover. Left alone, that tail would be
 	// readable without being accounted for and the next append would reuse
-	// its offset, so re-index the log.
+	// its offset. If it died between the two renames of Replace, the index
+	// belongs to the previous log file. In both cases the index does not end
+	// where the log ends, so re-index the log.
 	var indexedEnd int64
 	if lastEntry != nil {
 		indexedEnd = lastEntry.Position + int64(lastEntry.Size)
 	}
-	if indexedEnd < s.position {
+	if indexedEnd != s.position {
 		if rebuildErr := s.rebuildIndex(); rebuildErr != nil {
 			return errors.Wrap(rebuildErr, "failed to rebuild stale index")
 		}
@@ -475,12 +477,25 @@ func (s *segment) close() error {
 
 // Cleaned creates a cleaned segment for this segment.
 func (s *segment) Cleaned() (*segment, error) {
-	return newSegment(s.path, s.BaseOffset, s.maxBytes, false, cleanedSuffix)
+	return s.scratch(cleanedSuffix)
 }
 
 // Truncated creates a truncated segment for this segment.
 func (s *segment) Truncated() (*segment, error) {
-	return newSegment(s.path, s.BaseOffset, s.maxBytes, false, truncatedSuffix)
+	return s.scratch(truncatedSuffix)
+}
+
+// scratch creates an empty temporary segment with the given suffix. Files left
+// behind by an interrupted clean or truncation are removed first since the
+// segment's log is opened in append mode.
+func (s *segment) scratch(suffix string) (*segment, error) {
+	tmp := &segment{BaseOffset: s.BaseOffset, path: s.path, suffix: suffix}
+	for _, file := range []string{tmp.logPath(), tmp.indexPath()} {
+		if err := os.Remove(file); err != nil && !os.IsNotExist(err) {
+			return nil, errors.Wrap(err, "failed to remove stale file")
+		}
+	}
+	return newSegment(s.path, s.BaseOffset, s.maxBytes, false, suffix)
 }
 
 // Replace replaces the given segment with the callee.
